@@ -29,6 +29,15 @@ def answer : List String → String
         toString (mcnpId r) ++ " " ++ toString (aaazzzsId r) ++ " " ++ toString (labelId r).2.1 ++ " " ++
           toString (labelId r).2.2 ++ " " ++ toString (nameId r).2.2
       | _, _, _, _ => "bad-op"
+  | ["mcnpdec", a0, id] => match parseNat? a0, parseNat? id with
+      | some a0, some id => let d := mcnpDecode a0 id; toString d.1 ++ " " ++ toString d.2.1 ++ " " ++ toString d.2.2
+      | _, _ => "bad-op"
+  | ["aaadec", id] => match parseNat? id with
+      | some id => let d := aaazzzsDecode id; toString d.1 ++ " " ++ toString d.2.1 ++ " " ++ toString d.2.2
+      | none => "bad-op"
+  | ["matdens", r, d] => match parseRat? r, parseRat? d with
+      | some r, some d => if 1 + d / 100 = 0 then "reject" else showRat (matDensity r d) ++ " " ++ showRat (matPseudoDensity r d)
+      | _, _ => "bad-op"
   | _ => "bad-op"
 
 def main : IO Unit := loop answer
